@@ -248,6 +248,139 @@ pub fn gen(stream: &str, tier: &str, seed: u64) -> Vec<String> {
                 }
             }
         }
+        "v5enc" => {
+            let n = if thorough { 40_000 } else { 4_000 };
+            for i in 0..n {
+                let sz = Sizes { big: i % 50 == 0 };
+                let pmode = [0u8, 0, 0, 1, 2, 3, 4][i % 7];
+                let p = gen_v5(&mut rng, i % V5_TYPES, sz, pmode, i / 7);
+                out.push(format!("enc v5 {}", crate::v5text::show(&p)));
+            }
+            for extra in [
+                "enc v5 puback 0 0 [|]",
+                "enc v5 connect 4 1 60 [|] 63 ~ ~ ~",
+                "enc v5 subscribe 1 [|] 0",
+                "enc v5 unsubscribe 1 [|] 0",
+                "enc v5 connack 0 0 [36=2|]",
+                "enc v5 connack 0 1 [|]",
+                "enc v5 publish 0 0 0 ~ 61 [1=1|] ff",
+                "enc v5 publish 0 0 0 ~ 61 [11=268435456|] -",
+                "enc v5 puback 1 0 [17=1|]",
+                "enc v5 auth 1 [|]",
+                "enc v5 disconnect 1 [|]",
+                "enc v5 puback 7 0 [31=78|]",
+                "enc v5 pubrel 7 0 [|6b/76]",
+            ] {
+                out.push(extra.to_string());
+            }
+        }
+        "v5dec" | "v5poll" | "v5fault" => {
+            let n = if thorough { 20_000 } else { 2_000 };
+            for i in 0..n {
+                let sz = Sizes { big: i % 100 == 0 };
+                let pmode = [0u8, 0, 1, 2, 3, 4][i % 6];
+                let p = gen_v5(&mut rng, i % V5_TYPES, sz, pmode, i / 6);
+                let enc = match p.encode() {
+                    Ok(e) => e.as_ref().to_vec(),
+                    Err(_) => continue,
+                };
+                let mut variants: Vec<Vec<u8>> = vec![enc.clone()];
+                let mut with_tail = enc.clone();
+                with_tail.extend_from_slice(&[0xc0, 0x00, 0x30]);
+                variants.push(with_tail);
+                variants.push(respell_v5(&mut rng, &enc));
+                for _ in 0..3 {
+                    let mut m = mutate(&mut rng, &enc);
+                    if rng.chance(1, 4) {
+                        m = mutate(&mut rng, &m);
+                    }
+                    variants.push(m);
+                }
+                for v in variants {
+                    let h = hex_or_dash(&v);
+                    match stream {
+                        "v5dec" => {
+                            out.push(format!("dec v5 {}", h));
+                            out.push(format!("deca v5 {} eof", h));
+                            out.push(format!("poll v5 {} - eof", h));
+                            out.push(format!("hdr v5 {}", h));
+                        }
+                        "v5poll" => {
+                            out.push(format!("poll v5 {} {} eof", h, gen_sched(&mut rng, v.len())));
+                            out.push(format!("poll v5 {} {} err:{}", h, gen_sched(&mut rng, v.len()), rng.pick(&KINDS)));
+                        }
+                        _ => {
+                            if v.len() <= 300 {
+                                let k = rng.below(v.len() as u64 + 1) as usize;
+                                let kind = rng.pick(&KINDS);
+                                out.push(format!("deca v5 {} err:{}", hex_or_dash(&v[..k]), kind));
+                                out.push(format!("poll v5 {} {} err:{}", hex_or_dash(&v[..k]), gen_sched(&mut rng, k), kind));
+                                out.push(format!("deca v5 {} eof", hex_or_dash(&v[..k])));
+                                out.push(format!("dec v5 {}", hex_or_dash(&v[..k])));
+                            }
+                        }
+                    }
+                }
+            }
+            if stream == "v5poll" {
+                for t in 0..V5_TYPES {
+                    let mut tries = 0;
+                    loop {
+                        tries += 1;
+                        let p = gen_v5(&mut rng, t, Sizes { big: false }, 2, 0);
+                        let enc = p.encode().unwrap().as_ref().to_vec();
+                        if enc.len() <= (if thorough { 11 } else { 9 }) || tries > 300 {
+                            if enc.len() > 12 {
+                                break;
+                            }
+                            for comp in compositions(enc.len()) {
+                                let plain: Vec<String> = comp.iter().map(|c| format!("c{}", c)).collect();
+                                out.push(format!("poll v5 {} {} eof", hex(&enc), plain.join(",")));
+                                let mut withp: Vec<String> = Vec::new();
+                                for (j, c) in comp.iter().enumerate() {
+                                    if (j + comp.len()) % 2 == 0 {
+                                        withp.push(if j % 3 == 0 { "d".into() } else { "p".into() });
+                                    }
+                                    withp.push(format!("c{}", c));
+                                }
+                                out.push(format!("poll v5 {} {} eof", hex(&enc), withp.join(",")));
+                            }
+                            break;
+                        }
+                    }
+                }
+            }
+        }
+        "v5short" => {
+            out.push("dec v5 -".into());
+            out.push("poll v5 - - eof".into());
+            for a in 0..=255u8 {
+                out.push(format!("dec v5 {}", hex(&[a])));
+                out.push(format!("poll v5 {} - eof", hex(&[a])));
+                out.push(format!("hdr v5 {}", hex(&[a])));
+            }
+            for a in 0..=255u8 {
+                for b in 0..=255u8 {
+                    let h = hex(&[a, b]);
+                    out.push(format!("dec v5 {}", h));
+                    out.push(format!("poll v5 {} - eof", h));
+                    if thorough || b % 16 == 0 {
+                        out.push(format!("hdr v5 {}", h));
+                    }
+                }
+            }
+            let bodies: [&[u8]; 10] = [&[0, 0], &[0, 1], &[0, 1, 0], &[0, 1, 0x61], &[0, 1, 0x61, 0], &[0, 0, 0, 1], &[0, 4, 0x4d, 0x51, 0x54, 0x54, 5, 2, 0, 0, 0, 0, 0], &[0xff, 0xff, 0xff], &[0, 1, 0, 0], &[0, 1, 0x10, 2, 0x1f, 0]];
+            for a in 0..=255u8 {
+                for body in bodies {
+                    for l in [body.len() as u8, body.len() as u8 + 1, body.len().saturating_sub(1) as u8] {
+                        let mut f = vec![a, l];
+                        f.extend_from_slice(body);
+                        out.push(format!("dec v5 {}", hex(&f)));
+                        out.push(format!("poll v5 {} - eof", hex(&f)));
+                    }
+                }
+            }
+        }
         "v3short" => {
             // every string of length <= 2, every 2-byte header followed by short bodies
             out.push("dec v3 -".into());
